@@ -664,12 +664,17 @@ def long_tokens(ctx, res, binary=None, env=None, sanitizer=False):
         cases.append(Case('roundto-huge-places', None, ['eval', 'roundto(-123.45, %d)' % n], info=E('error')))
     # query nesting and query length.  A chain of k terms is printed as k nested parentheses and
     # parsed again as an expression, so the expression nesting limit applies to it as well.
-    for k in (2, 254, 255, 256, 257, 258, 2046, 2047, 2048, 2049, 20000):
-        cases.append(Case('query-term-count', j, ['reg'] + ['A'] * k, info=dict(limit=[('query-terms', k + 1), ('expr-depth', k)])))
+    for k in (1, 2, 254, 255, 256, 257, 258, 2048, 20000):
+        cases.append(Case('query-term-count', j, ['reg'] + ['A'] * k, info=dict(limit=[('query', 0, k), ('expr-depth', k)])))
     for k in (255, 256, 257):
-        cases.append(Case('query-term-count', j, ['reg'] + ' or '.join(['A'] * k).split(' '), info=dict(limit=[('query-terms', k + 1), ('expr-depth', k)])))
-    for d in (1, 254, 255, 256, 257, 258, 20000):
-        cases.append(Case('query-nesting-depth', j, ['reg'] + ['('] * d + ['A'] + [')'] * d, info=dict(limit=[('query-depth', d)])))
+        cases.append(Case('query-term-count', j, ['reg'] + ' or '.join(['A'] * k).split(' '), info=dict(limit=[('query', 0, k), ('expr-depth', k)])))
+        cases.append(Case('query-term-count', j, ['reg'] + ' and '.join(['A'] * k).split(' '), info=dict(limit=[('query', 0, k), ('expr-depth', k)])))
+    # nested parentheses: every `(` costs two calls of parse_query_term, so the term limit bites first
+    for d in (1, 2, 100, 125, 126, 127, 128, 129, 130, 254, 255, 256, 257, 258, 20000):
+        cases.append(Case('query-nesting-depth', j, ['reg'] + ['('] * d + ['A'] + [')'] * d, info=dict(limit=[('query', d, 1)])))
+    # d parentheses around k terms, on both sides of 2 d + k + 1 = limit
+    for d, k in ((1, 253), (1, 254), (1, 255), (10, 235), (10, 236), (10, 237), (100, 55), (100, 56), (100, 57), (127, 1), (127, 2), (127, 3)):
+        cases.append(Case('query-nesting-and-terms', j, ['reg'] + ['('] * d + ['A'] * k + [')'] * d, info=dict(limit=[('query', d, k), ('expr-depth', k)])))
     cases.append(Case('query-prefix-chain', j, ['reg'] + ['code'] * 20000 + ['x'], info=E('error')))
     # any / all without an argument
     for e, cls in (('account("A").any', 'error'), ('account("A").all', 'error'), ('account("A").any()', 'error'), ('account("A").all(1)', 'ok'),
@@ -691,8 +696,9 @@ def long_tokens(ctx, res, binary=None, env=None, sanitizer=False):
     # the numeric guards: the expected class comes from the limits regenerated from the source
     lim_lines, lim_at = [], []
     for i, c in enumerate(cases):
-        for which, n in c.info.get('limit', []):
-            lim_lines.append(lib.sx(['limit', 'q%d' % len(lim_lines), which, n]))
+        for lim in c.info.get('limit', []):
+            lim_lines.append(lib.sx((['query'] if lim[0] == 'query' else ['limit']) + ['q%d' % len(lim_lines)] +
+                                    (list(lim[1:]) if lim[0] == 'query' else list(lim))))
             lim_at.append(i)
     verdict = {}
     if lim_lines and not sanitizer:
